@@ -8,11 +8,17 @@
       live   = live instance counts `R<r>:<n>` `F<r>:<n>` `S<k>.<c>:<n>` (created − released)
       faults = number of use-after-free / double-free events so far
       mapped = `C<k>:<0/1>` per compiled version
-   ops:  b:<r>  rc:<r>  rf:<r>  c:<r>:<k>:<nconst>:<useConst>:<useClos>:<useData>:<value>
+      live   also: `Z:<n>` — live zero-sized script constants, all versions together (printed when a
+               version has any) —, `G<r>.<j>:<n>` for the further registered functions j = 0, 1 of runtime r
+               and `GZ:<n>` for the zero-sized ones (member 2) of all runtimes together (printed when `rs` happened)
+   ops:  b:<r>  rc:<r>  rf:<r>  rs:<r>
+         c:<r>:<k>:<nconst>:<nzst>:<useConst>:<useClos>:<useData>:<useSibs mask>:<value>
+         (old form  c:<r>:<k>:<nconst>:<useConst>:<useClos>:<useData>:<value>  = nzst 0, mask 0)
          g:<k>  gt:<k>  ch:<i>  if:<i>  x:<i>  dh:<i>  dp:<k>  dr:<r>
 -/
 import Driver.Util
 import RotoV.Model.Lifetime
+import RotoV.Model.LifetimeKeep
 import RotoV.Generated.Lifetime
 
 namespace Driver.C11
@@ -40,9 +46,21 @@ def parseOp (tok : String) : Option Op :=
   | ["c", r, k, n, uc, uf, ud, v] =>
     match r.toNat?, k.toNat?, n.toNat?, uc.toNat?, uf.toNat?, ud.toNat?, v.toNat? with
     | some r, some k, some n, some uc, some uf, some ud, some v =>
-      if uc ≤ 1 ∧ uf ≤ 1 ∧ ud ≤ 1 then some (.compile r k n (uc == 1) (uf == 1) (ud == 1) v) else none
+      if uc ≤ 1 ∧ uf ≤ 1 ∧ ud ≤ 1 then some (.compile r k n 0 (uc == 1) (uf == 1) (ud == 1) v) else none
     | _, _, _, _, _, _, _ => none
   | _ => none
+
+def parseTok (tok : String) : Option KOp :=
+  match tok.splitOn ":" with
+  | ["rs", r] => r.toNat?.map KOp.regSibs
+  | ["c", r, k, n, nz, uc, uf, ud, us, v] =>
+    match r.toNat?, k.toNat?, n.toNat?, nz.toNat?, uc.toNat?, uf.toNat?, ud.toNat?, us.toNat?, v.toNat? with
+    | some r, some k, some n, some nz, some uc, some uf, some ud, some us, some v =>
+      if uc ≤ 1 ∧ uf ≤ 1 ∧ ud ≤ 1 ∧ nz ≤ n ∧ us < 8 then
+        some (.main (.compile r k n nz (uc == 1) (uf == 1) (ud == 1) v) (familyMask r us))
+      else none
+    | _, _, _, _, _, _, _, _, _ => none
+  | _ => (parseOp tok).map (KOp.main · [])
 
 def showCall : CallRes → String
   | .ok v => s!"ok:{v}"
@@ -53,35 +71,42 @@ def sortNat (l : List Nat) : List Nat := (l.toArray.qsort (· < ·)).toList
 def liveOf (s : St) (created : Bool) (x : Res) : Nat :=
   (if created then 1 else 0) - s.relCount x
 
-def observe (s : St) : String :=
+def observe (s : St) (keepSt : KeepSt) : String :=
   let calls := (List.range s.hs.length).map fun i =>
-    match callHandle s i with
-    | some r => showCall r
+    match s.hs[i]? with
+    | some h => if sibCallOk s keepSt h.k then showCall (callRes s h.k) else "uaf"
     | none => "?"
   let rts := sortNat s.built
   let ks := sortNat s.compiled
   let live :=
     (rts.filter (s.constEver.contains ·)).map (fun r => s!"R{r}:{liveOf s true (.regConst r)}")
     ++ (rts.filter (s.closEver.contains ·)).map (fun r => s!"F{r}:{liveOf s true (.closure r)}")
-    ++ (ks.map fun k => (List.range (s.info k).nconst).map fun c =>
+    ++ (ks.map fun k => ((List.range (s.info k).nconst).filter (fun c => (s.info k).nzst ≤ c)).map fun c =>
           s!"S{k}.{c}:{liveOf s true (.scriptConst k c)}").flatten
+    ++ (if ks.any (fun k => 0 < (s.info k).nzst) then
+          [s!"Z:{(ks.map fun k => ((List.range (s.info k).nzst).map fun c => liveOf s true (.scriptConst k c)).sum).sum}"]
+        else [])
+    ++ ((sortNat keepSt.regd).map fun r =>
+          [s!"G{r}.0:{if sibLive s keepSt ⟨r, 0, 0⟩ then 1 else 0}", s!"G{r}.1:{if sibLive s keepSt ⟨r, 1, 0⟩ then 1 else 0}"]).flatten
+    ++ (if keepSt.regd.isEmpty then [] else
+          [s!"GZ:{(keepSt.regd.filter fun r => sibLive s keepSt ⟨r, 2, 1⟩).length}"])
   let mapped := ks.map fun k => s!"C{k}:{if s.mapped k then 1 else 0}"
   s!"{",".intercalate calls};{",".intercalate live};{s.faults.length};{",".intercalate mapped}"
 
-def runHist (F : Facts) : St → List Op → List String → List String
+def runHist (F : Facts) : St × KeepSt → List KOp → List String → List String
   | _, [], acc => acc.reverse
-  | s, op :: rest, acc =>
-    let v := valid s op
-    let s' := stepV F s op
-    runHist F s' rest (s!"{if v then 1 else 0};{observe s'}" :: acc)
+  | p, op :: rest, acc =>
+    let v := kvalid p.1 p.2 op
+    let p' := kstepV F p op
+    runHist F p' rest (s!"{if v then 1 else 0};{observe p'.1 p'.2}" :: acc)
 
 def handle (args : List String) : String :=
   match args with
   | ["facts"] => toString (repr RotoV.Gen.Lifetime.facts) |>.replace "\n" " "
   | "run" :: toks =>
-    match toks.mapM parseOp with
+    match toks.mapM parseTok with
     | none => "bad-op"
-    | some ops => "|".intercalate (runHist RotoV.Gen.Lifetime.facts {} ops [])
+    | some ops => "|".intercalate (runHist RotoV.Gen.Lifetime.facts ({}, {}) ops [])
   | _ => "bad-op"
 
 end Driver.C11
